@@ -193,7 +193,7 @@ Definition kill (th : thread) : thread :=
   | PFinished => th
   | _ => {| t_req := t_req th; t_pc := PFinished; t_postings := t_postings th; t_unb := t_unb th;
             t_view := t_view th; t_entry := t_entry th; t_txid := t_txid th; t_granted := t_granted th;
-            t_resp := Some RCrashed; t_gen := t_gen th |}
+            t_resp := Some RCrashed; t_gen := t_gen th; t_cancelled := t_cancelled th |}
   end.
 
 Lemma look_crash s t : look (crash s) t = option_map kill (look s t).
@@ -216,7 +216,8 @@ Proof.
   assert (Hk : t_pc th = PFinished /\ kill th = th \/
                kill th = {| t_req := t_req th; t_pc := PFinished; t_postings := t_postings th; t_unb := t_unb th;
                             t_view := t_view th; t_entry := t_entry th; t_txid := t_txid th;
-                            t_granted := t_granted th; t_resp := Some RCrashed; t_gen := t_gen th |}).
+                            t_granted := t_granted th; t_resp := Some RCrashed; t_gen := t_gen th;
+                            t_cancelled := t_cancelled th |}).
   { unfold kill. destruct (t_pc th); auto. }
   destruct Hk as [[Hpc Hk]|Hk]; rewrite Hk.
   - constructor; auto.
@@ -843,6 +844,96 @@ Proof.
   rewrite (look_none _ _ Hget) in Hl0. discriminate.
 Qed.
 
+(* ---- cancellation ---------------------------------------------------------------------------------------------- *)
+(* the invariant reads the state through [look] (threads with [t_granted] and [t_cancelled] erased) and the fields
+   of [glob] only *)
+Lemma look_ext_inv s s' :
+  Inv s -> gen s' = gen s ->
+  (persisted s', v_last s', v_lasttx s', v_pending s', v_batch s', v_cs s', v_uid s') =
+  (persisted s, v_last s, v_lasttx s, v_pending s, v_batch s, v_cs s, v_uid s) ->
+  (forall t, look s' t = look s t) -> Inv s'.
+Proof.
+  intros I Hg Hgl Hlook. inversion Hgl as [[Hp Hl Hlt Hpe Hb Hc Hu]]. clear Hgl.
+  destruct (cs_frame s s' Hc) as [Hcse Htxp]. { intros; apply Hlook. }
+  assert (Hall : all_log s' = all_log s).
+  { unfold all_log, batch_l. rewrite Hp, Hb, Hpe, Hcse. reflexivity. }
+  destruct I as [I1 I2 I3 I4 I5 I6 I7 I8 I9 I10 I11].
+  constructor; rewrite ?Hall, ?Hp, ?Hg, ?Hu, ?Hl, ?Hlt, ?Hb, ?Hpe, ?Hc, ?Htxp; auto.
+  - intros t th H. rewrite Hlook in H. auto.
+  - intros t H. rewrite Hlook. auto.
+  - intros t th H. rewrite Hlook in H. eauto.
+  - intros e He. rewrite Hlook. auto.
+  - intros t th e H. rewrite Hlook in H. eauto.
+  - intros t th e H. rewrite Hlook in H. eauto.
+Qed.
+
+(* [ACancel]: only the erased flag of one thread changes *)
+Lemma cancel_frame s t s' : cancel s t = Some s' ->
+  exists th, get_thread (threads s) t = Some th /\
+             s' = to_state (gen s) (set_th t (with_cancelled th) (of_state s)).
+Proof.
+  intros H. unfold cancel in H. destruct (get_thread (threads s) t) as [th|] eqn:Hget; [|discriminate].
+  destruct (negb _); [discriminate|]. destruct (pc_finished _); [discriminate|]. injection H as <-. eauto.
+Qed.
+
+Lemma cancel_look s t s' : cancel s t = Some s' -> forall t', look s' t' = look s t'.
+Proof.
+  intros H t'. destruct (cancel_frame _ _ _ H) as (th & Hget & ->).
+  unfold look. cbn. apply lookt_set_same with (th := th); auto.
+Qed.
+
+Lemma cancel_inv s t s' : Inv s -> cancel s t = Some s' -> Inv s'.
+Proof.
+  intros I H. pose proof (cancel_look _ _ _ H) as Hl. destruct (cancel_frame _ _ _ H) as (th & Hget & ->).
+  eapply look_ext_inv; [exact I|reflexivity|reflexivity|exact Hl].
+Qed.
+
+(* [AResumeCancelled]: a silent step of a thread outside the critical section, exactly like the refusals of
+   [resume]: the thread finishes with an error and no entry *)
+Lemma resume_cancelled_silent s t th s' :
+  Inv s -> get_thread (threads s) t = Some th -> resume_cancelled s t = Some s' ->
+  silent s t s' /\ t_pc th = PEnqueued.
+Proof.
+  intros I Hget Hres.
+  pose proof (look_get _ _ _ Hget) as Hlook.
+  pose proof (i_thr _ I _ _ Hlook) as Hti. apply tinv_erase_2 in Hti.
+  unfold resume_cancelled in Hres. rewrite Hget in Hres.
+  destruct (Nat.eqb (t_gen th) (gen s)) eqn:Hg; simpl in Hres; [|discriminate]. apply Nat.eqb_eq in Hg.
+  pose proof Hti as [T1 T2 T3 T4 T5 T6 T7 T8].
+  unfold in_cs, pc_ok, run_ok, covers_th, tx_th, dry_th in *.
+  destruct (t_pc th) eqn:Hpc; try discriminate.
+  destruct (t_cancelled th); [|discriminate]. injection Hres as <-.
+  split; [|reflexivity].
+  match goal with |- silent _ _ (to_state _ (finish _ _ _ _ _ _ _ ?X)) => set (u1 := X) end.
+  assert (Hgl1 : glob u1 = glob (of_state s)).
+  { subst u1. destruct (t_granted th); [apply unlock_glob|apply dequeue_glob]. }
+  assert (Hl1 : forall t', lookt (u_threads u1) t' = look s t').
+  { intros t'. subst u1. destruct (t_granted th); [apply unlock_look|apply dequeue_look]. }
+  clearbody u1.
+  eapply silent_intro;
+  [ exact Hgl1
+  | intros t'; cbn; rewrite lookt_set, Hl1; reflexivity
+  | intros th0 Hl0; rewrite Hlook in Hl0; inversion Hl0; subst; exact Hg
+  | cbn; exact Hg
+  | rewrite Hlook; cbn; reflexivity
+  | reflexivity
+  | cbn; congruence
+  | apply tinv_erase_1 ].
+  step_tac Hti; tfin.
+Qed.
+
+Lemma resume_cancelled_inv s t s' : Inv s -> resume_cancelled s t = Some s' -> Inv s'.
+Proof.
+  intros I Hres.
+  destruct (get_thread (threads s) t) as [th|] eqn:Hget;
+    [|unfold resume_cancelled in Hres; rewrite Hget in Hres; discriminate].
+  destruct (resume_cancelled_silent _ _ _ _ I Hget Hres) as [Hs Hpc].
+  eapply silent_inv; [exact I| |exact Hs].
+  intros Hc. destruct (i_cs _ I _ Hc) as (th0 & Hl0 & _ & Hin0 & _).
+  rewrite (look_get _ _ _ Hget) in Hl0. inversion Hl0; subst th0.
+  unfold in_cs in Hin0. cbn in Hin0. rewrite Hpc in Hin0. discriminate.
+Qed.
+
 Lemma step_inv s a s' : Inv s -> step s a = Some s' -> Inv s'.
 Proof.
   intros I H. destruct a; simpl in H.
@@ -851,6 +942,8 @@ Proof.
   - eapply persist_inv; eauto.
   - destruct (v_batch s); [|discriminate]. injection H as <-. apply crash_inv; auto.
   - injection H as <-. apply crash_inv; auto.
+  - eapply cancel_inv; eauto.
+  - eapply resume_cancelled_inv; eauto.
 Qed.
 
 Lemma run_inv acts : forall s s', Inv s -> run s acts = Some s' -> Inv s'.
